@@ -27,8 +27,8 @@ Qed.
 Print Assumptions decode_bit_prefix_fails.
 
 Example c16_nonvacuous :
-  let sc := {| structs := [ {| sname := "S"; sfields := [ {| fname := "a"; fid := 0; fty := SU 4 |};
-                                                         {| fname := "s"; fid := 1; fty := SStr |} ] |} ];
+  let sc := {| structs := [ {| sname := "S"; sfields := [ {| fname := "a"; fid := 0; fty := SU 4; funit := None |};
+                                                         {| fname := "s"; fid := 1; fty := SStr; funit := None |} ] |} ];
                enums := [] |} in
   let v := VStruct [("a"%string, VInt 9); ("s"%string, VStr [104; 105])] in
   exists bytes, py_encode sc "S" v = Some bytes /\ length bytes = 7%nat /\
